@@ -219,3 +219,140 @@ def symbol_unit(repo, contracts, cls_name='SerializingInterpreter', module=SI):
         ctx.oblige('post:tracker pushes Symbol(name)', top == PTLs.mk('ptcons', PTR.mk('PyPat', P.mk('Symbol', nq.t)), S.t), kind='post')
         return None
     return unit
+
+
+# ---- replay / bounded stand-in on the real interpreters -----------------------------------------------------------------------------------
+SIM_PRELUDE = r"""
+import io
+from proof_generation.serializing_interpreter import SerializingInterpreter
+from proof_generation.interpreter import ExecutionPhase
+from proof_generation.proved import Proved
+from proof_generation.claim import Claim
+def _sim(meth, phase, stack, memory, claims, args):
+    out = io.BytesIO(); out.close = lambda: None
+    i = SerializingInterpreter(ExecutionPhase(phase), out, [Claim(c) for c in claims], io.BytesIO(), io.BytesIO())
+    i.stack = list(stack); i.memory = list(memory)
+    try:
+        getattr(i, meth)(*args)
+    except BaseException as e:
+        return ('raise', type(e).__name__)
+    return ('ok', list(out.getvalue()), i.stack, i.memory, [c.pattern for c in i.claims])
+"""
+
+
+def _term_py(t):
+    from vc import replay as rp
+    return rp.data_to_py(t[1]) if t[0] == 'PyPat' else f'Proved({rp.data_to_py(t[1])})'
+
+
+def _ptl(d):
+    out = []
+    while d[0] == 'ptcons':
+        out.append(d[1])
+        d = d[2]
+    return list(reversed(out))        # python order (first element first)
+
+
+def _pcl(d):
+    out = []
+    while d[0] == 'pccons':
+        out.append(d[1])
+        d = d[2]
+    return out
+
+
+def sim_case_expr(meth, phase, stack, memory, claims, args_py):
+    from vc import replay as rp
+    return (f"_sim({meth!r}, {PHASE_NO[phase]}, [{', '.join(_term_py(t) for t in stack)}], [{', '.join(_term_py(t) for t in memory)}], "
+            f"[{', '.join(rp.data_to_py(c) for c in claims)}], [{', '.join(args_py)}])")
+
+
+def sim_check_real(meth, phase, stack, memory, claims, real):
+    """compare the real outcome with the spec machine run on the expanded state; -> (ok, detail)"""
+    from vc import replay as rp, smreplay, norm
+    from vc.run import term_to_data
+    d = rp.repr_to_data(real['repr']) if real['ok'] else None
+    if d is None or d[0] != 'tuple' or d[1] != 'ok':
+        return True, 'call not accepted by the tracker'
+    emitted = [x for x in d[2][1:]]
+    def ex(t):
+        return ('Pat' if t[0] == 'PyPat' else 'Prf', term_to_data(norm.ceval(expand(rp.data_to_term(t[1], 'ppat')))))
+    def exv(v):   # value parsed from the real repr
+        if isinstance(v, tuple) and v[0] == 'obj' and v[1] == 'Proved':
+            return ('Prf', term_to_data(norm.ceval(expand(rp.data_to_term(v[2]['conclusion'], 'ppat')))))
+        return ('Pat', term_to_data(norm.ceval(expand(rp.data_to_term(v, 'ppat')))))
+    S0 = [ex(t) for t in reversed(stack)]       # machine stack: top first
+    M0 = [ex(t) for t in memory]
+    C0 = [term_to_data(norm.ceval(expand(rp.data_to_term(c, 'ppat')))) for c in claims] if phase == 'Proof' else []
+    exp = smreplay.sm_run(phase, emitted, S0, M0, C0)
+    S2 = [exv(v) for v in reversed(d[3][1:])]
+    M2 = [exv(v) for v in d[4][1:]]
+    if exp is None:
+        return False, f'machine rejects the emitted bytes {emitted}'
+    if meth in NOT_POPPED:
+        S2 = S2[1:]
+    if list(exp[0]) != S2:
+        return False, f'stack: machine {exp[0]} tracker {S2} (bytes {emitted})'
+    if list(exp[1]) != M2:
+        return False, f'memory: machine {exp[1]} tracker {M2} (bytes {emitted})'
+    return True, 'agree'
+
+
+def sim_bounded(meth, phase, root, tier, seed):
+    """small concrete tracker states and arguments through the REAL interpreter method vs the concretely evaluated spec machine"""
+    import random
+    from vc import replay as rp
+    rng = random.Random(seed)
+    nilI = ('inil',)
+    mv = lambda i: ('PMetaVar', i, nilI, nilI, nilI, nilI, nilI)
+    pats = [('PEVar', 0), ('PSymbol', 1), ('PImplies', mv(0), mv(1)), mv(0), mv(1), ('PImplies', ('PEVar', 0), ('PEVar', 0)), ('PExists', 0, ('PEVar', 0))]
+    maps = [[(0, pats[0])], [(1, pats[1]), (0, pats[0])], [(0, pats[0]), (1, pats[1])], [(2, pats[5]), (0, pats[1]), (1, pats[0])], []]
+    cases = []
+    for _ in range(60 if tier == 'quick' else 600):
+        below = [('PyPat' if rng.random() < 0.7 else 'PyPrf', rng.choice(pats)) for _ in range(rng.randint(0, 2))]
+        mem = [('PyPat' if rng.random() < 0.5 else 'PyPrf', rng.choice(pats)) for _ in range(rng.randint(0, 3))]
+        claims = [rng.choice(pats) for _ in range(rng.randint(0, 2))]
+        if meth in ('instantiate', 'instantiate_pattern'):
+            m = rng.choice(maps)
+            target = rng.choice(pats[2:5])
+            top = ('PyPrf', target) if meth == 'instantiate' else ('PyPat', target)
+            stack = below + [('PyPat', v) for _, v in m] + [top]
+            tgt_py = f'Proved({rp.data_to_py(target)})' if meth == 'instantiate' else rp.data_to_py(target)
+            args = [tgt_py, '{' + ', '.join(f'{k}: {rp.data_to_py(v)}' for k, v in m) + '}']
+        elif meth in ('save', 'pop'):
+            t = (rng.choice(['PyPat', 'PyPrf']), rng.choice(pats))
+            stack = below + [t]
+            args = (["'id'"] if meth == 'save' else []) + [_term_py(t)]
+            if rng.random() < 0.5 and mem:
+                mem = mem + [t]
+        elif meth == 'load':
+            if not mem:
+                continue
+            t = rng.choice(mem)
+            stack = below
+            args = ["'id'", _term_py(t)]
+        elif meth == 'metavar':
+            stack = below
+            lists = [tuple(rng.sample([0, 1, 2], rng.randint(0, 2))) for _ in range(5)]
+            if rng.random() < 0.4:
+                lists = [(), (), (), (), lists[4]]
+            args = [str(rng.randint(0, 2))] + ['(' + ''.join(f'{k}({x}), ' for x in l) + ')' for k, l in zip(('EVar', 'SVar', 'SVar', 'SVar', 'EVar'), lists)]
+            if set(lists[4]) & set(lists[0]):
+                continue
+        else:
+            return None, 0
+        cases.append((stack, mem, claims, args))
+    jobs = [{'expr': sim_case_expr(meth, phase, s, m, c, a)} for s, m, c, a in cases]
+    if not jobs:
+        return None, 0
+    reals = rp.run_real(jobs, prelude=SIM_PRELUDE, root=root)
+    n = 0
+    for (s, m, c, a), real, job in zip(cases, reals, jobs):
+        n += 1
+        try:
+            ok, detail = sim_check_real(meth, phase, s, m, c, real)
+        except Exception as e:
+            continue
+        if not ok:
+            return {'expr': job['expr'], 'real': real, 'failed_clause': detail}, n
+    return None, n
